@@ -25,6 +25,10 @@ def profile_refs(a):
     c = a.config
     inp = a.inputs
     opts = a.side["eq"]["user_options"]
+    if c.get("family") == "X":
+        # TORPEX: fpol = Bt_axis * Rcentre (Rcentre = 1 m), constant; no pressure
+        xs = np.array([-1.0, -0.5, 0.5, 1.0])
+        return InterpolatedUnivariateSpline(xs, np.full(4, float(inp["Bt_axis"])), ext=3), None, -1.0, 1.0
     k = interp.psi_transform(opts)
     if c["via"] == "gfile":
         n = len(inp["R1D"])
@@ -77,7 +81,8 @@ def check_artefact(ctx, a, stats):
     for r in regs:
         by_eq.setdefault(r["eqname"], []).append(r)
     eq = side["eq"]
-    sign_out = np.sign(eq["psi_sep"][0] - eq["psi_axis"]) if "psi_sep" in eq else 1.0
+    sign_out = np.sign(eq["psi_sep"][0] - eq["psi_axis"]) if ("psi_sep" in eq and "psi_axis" in eq) else 1.0
+    is_x = a.config.get("family") == "X"
     signs = set()
     if opts.get("cap_Bp_ylow_xpoint"):
         return
@@ -160,6 +165,8 @@ def check_artefact(ctx, a, stats):
         ctx.violation("%s | Bpxy has both signs in one grid" % mode, dict(config=a.config["label"]),
                       replay=dict(config=a.config))
     # scalars
+    if is_x:
+        return  # no O-point: psi_axis / psi_bdry / Bt_axis (a given number) do not apply
     nc = a.nc
     o, xs = a.inputs["o_point"], a.inputs["x_points"]
     Ro, Zo = interp.newton_critical(ref, o["R"], o["Z"])
